@@ -19,10 +19,15 @@ CLAIMS = {
   "text": "unpack_total/unpackDir_total: the mirror of Unpack/UnpackDir, whose primitive reads trap exactly where Go's do, never "
           "traps on any byte string in either dialect; unpack_ok_shape (consumed = size prefix, 7<=n<=len), unpack_prefix_indep "
           "(result independent of bytes past the declared size), unpack_alloc_bound (make() behind a guard: <= 8 bytes per input "
-          "byte). Correspondence: every truncation/declared size/byte substitution of canonical packets of every type, lying count "
+          "byte); unpack_ok_fields (the decoded type is byte 4 and a defined type, the message carries Go's defaults, and the protocol "
+          "encoding of its fields is at most 4 bytes longer than the packet body, so every variable-length field lies inside it; all "
+          "strings and counts fit their wire fields) and reencode_decodes_same (for every successful decode of a packet below 4GiB-4, "
+          "re-encoding the decoded fields and decoding again yields the same tag and fields and consumes exactly the new packet). "
+          "Correspondence: every truncation/declared size/byte substitution of canonical packets of every type, lying count "
           "fields, random bytes, with measured allocation, on the real Unpack vs the mirror (~50k quick).",
-  "note": TB + "The re-encode clause is covered by C01.unpack_encode for decoded messages that are representable; a direct theorem "
-          "(decoded message is representable) is listed as future work in DESIGN.md. Allocation of the Go runtime is measured, not modelled.",
+  "note": TB + "The re-encode theorem excludes packets within 4 bytes of 4 GiB (their re-encoding cannot carry its own size); the "
+          "harness also re-encodes every successfully decoded packet with the real constructors and decodes it again. Allocation of the "
+          "Go runtime is measured, not modelled.",
  },
  "C20": {
   "technique": "Lean 4 proof (ring refines last-N by an invariant over all histories; Filter loop termination and specification; queue system invariants) + differential correspondence",
@@ -42,11 +47,12 @@ CLAIMS = {
           "unknown_fid_refused, attach_in_use_refused, auth_in_use_refused: invalid / already bound fids are refused with the stated "
           "error, nothing forwarded, table untouched; conn_private; destroyed_exactly_once (in the step of any request a fid number is "
           "reported destroyed at most once, it is reported when the request invalidates a valid fid, and whatever is reported is invalid "
-          "afterwards — in the same step as the reply). Correspondence: ~2.5k (quick) random histories on a real Conn with a "
+          "afterwards — in the same step as the reply); user_binding_stable / user_binding_history (a fid that stays valid stays bound "
+          "to the same user across any request and any history) and new_fid_bound_by_request (a fid that becomes valid was bound by a "
+          "Tauth/Tattach naming it, to the user that request names, or by a Twalk to it, to the user of the source fid). Correspondence: ~2.5k (quick) random histories on a real Conn with a "
           "scripted implementation compare reply, calls, FidDestroy log and the whole fid table after every request; an independent Go "
           "oracle of the property runs on the same observations.",
-  "note": TB + "Sequential histories only (each request answered before the next is sent); user binding is compared by the "
-          "differential run, not yet a theorem.",
+  "note": TB + "Sequential histories only (each request answered before the next is sent).",
  },
  "C05": {
   "technique": "Lean 4 proof (guard theorems for every rule of the statement, for all states, arguments and implementations; no-wrap count rule over all 32-bit counts) + differential correspondence",
